@@ -105,6 +105,8 @@ type vfSim struct {
 	stuck    bool
 	inv      func() // invariant evaluated at every quiescent point
 	onStep   func(key string)
+	pct      bool           // priority scheduling instead of uniform choice
+	prio     map[string]int // event key -> priority
 	ticks    bool // allow clock ticks when nothing is eligible
 	sendProbe func() bool // if set, cc.send waiters are released only when this probe of the connection's write lock succeeds
 	start    time.Time
@@ -120,6 +122,7 @@ func vfNewSim(tape *vfTape, maxSteps int) *vfSim {
 		parked:   map[string]*vfWaiter{},
 		sites:    map[string]bool{},
 		stats:    map[string]int{},
+		prio:     map[string]int{},
 		maxSteps: maxSteps,
 		hash:     14695981039346656037,
 		shash:    14695981039346656037,
@@ -298,7 +301,30 @@ func (s *vfSim) step(filter func(key string) bool) bool {
 	if len(evs) == 0 {
 		return false
 	}
-	i := s.tape.next(len(evs))
+	var i int
+	if s.pct {
+		// priority scheduling: every event key gets a random priority when first seen; the highest
+		// eligible priority runs. Low-priority events are starved until nothing else can run, which
+		// realises the long delays that uniform choice almost never produces.
+		best := -1
+		for j, x := range evs {
+			pr, ok := s.prio[x.key]
+			if !ok {
+				pr = 1 + s.tape.next(1<<20)
+				s.prio[x.key] = pr
+			}
+			if best < 0 || pr > s.prio[evs[best].key] {
+				best = j
+			}
+		}
+		i = best
+		// now and then the running event is demoted
+		if s.tape.next(16) == 0 {
+			s.prio[evs[i].key] = 0
+		}
+	} else {
+		i = s.tape.next(len(evs))
+	}
 	e := evs[i]
 	s.seq++
 	s.steps++
